@@ -62,17 +62,6 @@ var c07Reqs = []c07Req{
 	{"lit-3", `{ echo(i:3, s:"six") a { items(n:3) { n } } }`, nil},
 }
 
-// c07QueryIndex numbers the distinct query texts of the pool.
-var c07QueryIndex = func() map[string]int {
-	m := map[string]int{}
-	for _, r := range c07Reqs {
-		if _, ok := m[r.Query]; !ok {
-			m[r.Query] = len(m)
-		}
-	}
-	return m
-}()
-
 // index of the first literal variant
 var c07LitBase = func() int {
 	for i, r := range c07Reqs {
@@ -95,6 +84,8 @@ type C07Client struct {
 }
 
 type C07Scn struct {
+	// Gen: generated documents (gendoc.go); request index len(pool)+i refers to Gen[i]
+	Gen []GenDoc `json:"gen,omitempty"`
 	// Faults makes the same resolvers fail for every client (first failures of a
 	// field of a shared plan happening on several goroutines)
 	Faults     map[string]string `json:"faults,omitempty"`
@@ -103,6 +94,15 @@ type C07Scn struct {
 	Normalize  bool              `json:"normalize"`
 	Park       []string          `json:"park"`
 	Sticky     int               `json:"stickiness"`
+}
+
+// c07ReqAt resolves a request index of a scenario.
+func c07ReqAt(sc *C07Scn, i int) c07Req {
+	if i < len(c07Reqs) {
+		return c07Reqs[i]
+	}
+	g := sc.Gen[i-len(c07Reqs)]
+	return c07Req{Name: fmt.Sprintf("generated-%d", i-len(c07Reqs)), Query: g.Query, Vars: normaliseJSONInts(g.Vars).(map[string]interface{})}
 }
 
 type c07 struct{}
@@ -122,6 +122,14 @@ func (p c07) Gen(seed uint64, enum int, tier string) json.RawMessage {
 	work := make([]int, 1+r.Intn(3))
 	for i := range work {
 		work[i] = r.Intn(len(c07Reqs))
+	}
+	if r.Chance(30) {
+		// generated documents (nested abstract selections, typed fragments,
+		// variable-driven directives) join the working set
+		for n := 1 + r.Intn(2); n > 0; n-- {
+			s.Gen = append(s.Gen, GenQueryDoc(NewRNG(r.Uint64()), c04GenWorld(), 6+r.Intn(25), true))
+			work = append(work, len(c07Reqs)+len(s.Gen)-1)
+		}
 	}
 	kinds := []string{"do", "do", "cache", "cache", "plan", "plan", "validate", "reset"}
 	maxOps := 4
@@ -153,7 +161,7 @@ func (p c07) Gen(seed uint64, enum int, tier string) json.RawMessage {
 		for n := 1 + r.Intn(maxOps); n > 0; n-- {
 			kind := kinds[r.Intn(len(kinds))]
 			req := work[r.Intn(len(work))]
-			if c07Reqs[req].Name == "lazy-plan-panic" {
+			if c07ReqAt(&s, req).Name == "lazy-plan-panic" {
 				kind = "plan" // this document never passes validation's literal check unharmed
 			}
 			cl.Ops = append(cl.Ops, C07Op{Kind: kind, Req: req})
@@ -163,7 +171,7 @@ func (p c07) Gen(seed uint64, enum int, tier string) json.RawMessage {
 	if r.Chance(30) {
 		s.Faults = map[string]string{}
 		for _, wi := range work {
-			rq := c07Reqs[wi]
+			rq := c07ReqAt(&s, wi)
 			paths := dryPaths(rq.Query, rq.Vars, s.Clients[0].Variant)
 			for k := 1 + r.Intn(2); k > 0 && len(paths) > 0; k-- {
 				s.Faults["R@"+paths[r.Intn(len(paths))]] = []string{FErr, FErr, FPanicStr, FNil}[r.Intn(4)]
@@ -229,8 +237,7 @@ func dryPaths(query string, vars map[string]interface{}, variant uint64) []strin
 	return p
 }
 
-func c07Solo(op C07Op, variant uint64, world int, faults map[string]string) string {
-	rq := c07Reqs[op.Req]
+func c07Solo(rq c07Req, op C07Op, variant uint64, world int, faults map[string]string) string {
 	w := NewWorld([]string{"A", "B"}[world])
 	rc := &ReqCtx{Task: "solo", W: w, Variant: variant, Faults: faults, RootTok: Tok{T: c07Root(rq.Query)}}
 	ctx := WithReq(context.Background(), rc)
@@ -274,7 +281,7 @@ func (c07) Run(t TestingT, scn json.RawMessage, tape *Tape) *Outcome {
 	solo := map[string]string{}
 	for ci, cl := range sc.Clients {
 		for oi, op := range cl.Ops {
-			solo[fmt.Sprintf("c%d.%d", ci+1, oi)] = c07Solo(op, cl.Variant, cl.World, sc.Faults)
+			solo[fmt.Sprintf("c%d.%d", ci+1, oi)] = c07Solo(c07ReqAt(&sc, op.Req), op, cl.Variant, cl.World, sc.Faults)
 		}
 	}
 	s := NewSim(tape)
@@ -325,7 +332,7 @@ func (c07) Run(t TestingT, scn json.RawMessage, tape *Tape) *Outcome {
 		worlds := []*World{NewWorld("A"), NewWorld("B")} // cold: nothing lazily initialised by a request yet
 		cache = graphql.NewPlanCache(graphql.PlanCacheOptions{MaxEntries: sc.MaxEntries, Normalize: sc.Normalize})
 		// prepared plans shared by all clients of a schema (planned, not yet executed)
-		plans := map[[2]int]*graphql.Plan{} // keyed by schema and query text (requests that differ in variables only share the plan)
+		plans := map[string]*graphql.Plan{} // keyed by schema and query text (requests that differ in variables only share the plan)
 		panicWorlds := map[int]bool{}
 		defer func() {
 			for wi := range panicWorlds {
@@ -338,10 +345,10 @@ func (c07) Run(t TestingT, scn json.RawMessage, tape *Tape) *Outcome {
 				if op.Kind != "plan" {
 					continue
 				}
-				if _, ok := plans[[2]int{cl.World, c07QueryIndex[c07Reqs[op.Req].Query]}]; ok {
+				if _, ok := plans[fmt.Sprintf("%d|%s", cl.World, c07ReqAt(&sc, op.Req).Query)]; ok {
 					continue
 				}
-				rq := c07Reqs[op.Req]
+				rq := c07ReqAt(&sc, op.Req)
 				var pl *graphql.Plan
 				if rq.Name == "lazy-plan-panic" {
 					// prepared without validation; the literal turns hostile afterwards
@@ -352,7 +359,7 @@ func (c07) Run(t TestingT, scn json.RawMessage, tape *Tape) *Outcome {
 				} else if doc, err := parseDoc(rq.Query); err == nil && graphql.ValidateDocument(&w.Schema, doc, nil).IsValid {
 					pl, _ = graphql.PlanQuery(&w.Schema, doc, "")
 				}
-				plans[[2]int{cl.World, c07QueryIndex[c07Reqs[op.Req].Query]}] = pl
+				plans[fmt.Sprintf("%d|%s", cl.World, c07ReqAt(&sc, op.Req).Query)] = pl
 			}
 		}
 		for wi := range panicWorlds {
@@ -377,7 +384,7 @@ func (c07) Run(t TestingT, scn json.RawMessage, tape *Tape) *Outcome {
 					}
 				}()
 				for oi, op := range cl.Ops {
-					rq := c07Reqs[op.Req]
+					rq := c07ReqAt(&sc, op.Req)
 					s.Gate(name, "client:op", fmt.Sprintf("%d %s %s", oi, op.Kind, rq.Name))
 					rc := &ReqCtx{Task: name, Req: oi, W: w, Variant: cl.Variant, Faults: sc.Faults, Gates: true, RootTok: Tok{T: c07Root(rq.Query)}}
 					ctx := WithReq(WithTask(context.Background(), name), rc)
@@ -395,7 +402,7 @@ func (c07) Run(t TestingT, scn json.RawMessage, tape *Tape) *Outcome {
 							tc.Out[key] = MarshalResult(held[key])
 						}
 					case "plan":
-						if pl := plans[[2]int{cl.World, c07QueryIndex[c07Reqs[op.Req].Query]}]; pl != nil {
+						if pl := plans[fmt.Sprintf("%d|%s", cl.World, c07ReqAt(&sc, op.Req).Query)]; pl != nil {
 							tc.Out[key] = MarshalResult(graphql.ExecutePlan(pl, graphql.ExecuteParams{Schema: w.Schema, Args: rq.Vars, Context: ctx}))
 						} else {
 							tc.Out[key] = MarshalResult(graphql.Do(graphql.Params{Schema: w.Schema, RequestString: rq.Query, VariableValues: rq.Vars, Context: ctx}))
@@ -454,10 +461,10 @@ func (c07) Run(t TestingT, scn json.RawMessage, tape *Tape) *Outcome {
 		for oi, op := range cl.Ops {
 			key := fmt.Sprintf("%s.%d", name, oi)
 			if late, ok := outs[key+":late"]; ok && late != outs[key] {
-				o.Violate("C07/result-changed-after-return", "client %s op %d (%s %s): the returned result reads differently at the end of the run\n returned: %s\n    later: %s", name, oi, op.Kind, c07Reqs[op.Req].Name, outs[key], late)
+				o.Violate("C07/result-changed-after-return", "client %s op %d (%s %s): the returned result reads differently at the end of the run\n returned: %s\n    later: %s", name, oi, op.Kind, c07ReqAt(&sc, op.Req).Name, outs[key], late)
 			}
 			if got, want := outs[key], solo[key]; got != want {
-				o.Violate("C07/response-differs", "client %s op %d (%s %s): response under concurrency differs from the response when run alone\n  got: %s\n solo: %s", name, oi, op.Kind, c07Reqs[op.Req].Name, got, want)
+				o.Violate("C07/response-differs", "client %s op %d (%s %s): response under concurrency differs from the response when run alone\n  got: %s\n solo: %s", name, oi, op.Kind, c07ReqAt(&sc, op.Req).Name, got, want)
 			}
 		}
 	}
